@@ -161,6 +161,32 @@ Section WithIP6.
     | Some h => match h with [] => false | _ => str_eqb h reg end
     | None => false
     end.
+  (* The same validator WITHOUT the three shortcuts, following url.ParseRequestURI step by step:
+     everything from the first '?' on is the query, the authority ends at the first '/', what
+     precedes the last '@' of the authority is user-info; [other_ok authority path] stands for
+     the checks this model does not spell out (validUserinfo / unescaping of the user-info,
+     unescaping of the path), whatever they answer.  Proofs/NetURL.v: equal to go_valid_registry. *)
+  Variable other_ok : str -> option str -> bool.
+  Definition cut_first (c : N) (s : str) : str * option str :=
+    match index_of c s with
+    | Some i => (firstn i s, Some (skipn (S i) s))
+    | None => (s, None)
+    end.
+  Definition request_uri_host (reg : str) : option str :=
+    if existsb is_ctl reg then None
+    else
+      let rest := fst (cut_first 63 reg) in
+      let (auth, path) := cut_first 47 rest in
+      let hostpart := match last_index_of 64 auth with Some i => skipn (S i) auth | None => auth end in
+      match parse_host hostpart with
+      | None => None
+      | Some h => if other_ok auth path then Some h else None
+      end.
+  Definition go_valid_registry_faithful (reg : str) : bool :=
+    match request_uri_host reg with
+    | Some h => match h with [] => false | _ => str_eqb h reg end
+    | None => false
+    end.
 End WithIP6.
 
 (* ---------- netip.ParseAddr (go1.26.8) on the contents of a bracketed IP literal ----------
